@@ -24,6 +24,13 @@
 //!  * fractional configurations (C06): configure_timeout with 8 initial RTOs and 4 last time-outs that
 //!    are not whole milliseconds x retransmits 0..=8 x transports; every interval is the exact value
 //!    or its truncation to milliseconds;
+//!  * message sizes (C18 C06): requests of every serialised size from 24 to 2 200 bytes (one attribute
+//!    of every value length, and the same size made of value-less attributes) and at the top of the
+//!    size range, served through the default schedule: every transmission carries all the bytes;
+//!  * responses (C15 C07 C05): to an authenticated request (short- and long-term credentials), a
+//!    success response and an error response of every code 300..=699 x {NONCE, REALM, ALTERNATE-SERVER,
+//!    FINGERPRINT present or not} x {no integrity, valid SHA-1, valid SHA-256, SHA-1 under another key,
+//!    corrupted SHA-1}: delivered and its source validated exactly when the integrity is valid;
 //!  * purity (C20): each history is run three times on fresh threads, the third alongside unrelated
 //!    agents; the complete reply transcripts must be identical.
 use super::*;
@@ -404,6 +411,166 @@ fn contents(sc: &Scenario) -> Outcome {
     out
 }
 
+/// Requests of every serialised size (block `n` covers 64 value lengths; `via` 0 = one attribute holding
+/// the whole value, 1 = the same number of bytes as value-less attributes + one short one; `kind` 1 =
+/// the top of the size range).
+fn sizes(sc: &Scenario) -> Outcome {
+    let base = base_instant();
+    let t = if sc.tcp { TransportType::Tcp } else { TransportType::Udp };
+    let mut out = Outcome { breaches: vec![], transcript: vec![] };
+    let dest = saddr(0, 1);
+    for lo in 0..64usize {
+        let v = if sc.kind == 1 { 65_465 + lo } else { sc.n * 64 + lo };
+        if v > 65_528 {
+            continue;
+        }
+        let idv = stid(1_300_000 + v);
+        let mut w = wire::encode_header(0, BINDING, idv, 0);
+        let mut b = Message::builder(MessageType::from_class_method(MessageClass::Request, BINDING), idv.into());
+        let value: Vec<u8> = (0..v).map(|i| (i * 13 + 5) as u8).collect();
+        if sc.via == 0 {
+            b.add_raw_attribute(RawAttribute::new(AttributeType::new(0xC051), &value)).unwrap();
+            wire::append_raw(&mut w, 0xC051, &value);
+        } else {
+            // v / 4 value-less attributes of distinct types, then one with v % 4 bytes
+            for i in 0..v / 4 {
+                let typ = 0x4000 + i as u16;
+                b.add_raw_attribute(RawAttribute::new(AttributeType::new(typ), &[])).unwrap();
+                wire::append_raw(&mut w, typ, &[]);
+            }
+            b.add_raw_attribute(RawAttribute::new(AttributeType::new(0xC052), &value[..v % 4])).unwrap();
+            wire::append_raw(&mut w, 0xC052, &value[..v % 4]);
+        }
+        let mut a = StunAgent::builder(t, local_addr()).build();
+        let mut n_tx = 0;
+        match a.send(b, dest, base) {
+            Ok(tr) => {
+                n_tx += 1;
+                out.transcript.push(h(&tr.data()));
+                if tr.data() != &w[..] || tr.to != dest || tr.from != local_addr() {
+                    out.breaches.push(("C18", "sizes/initial-bytes".into(), format!("the initial transmission of a request of {} bytes is not its serialisation", w.len()), crate::common::fmt_bytes(&w), crate::common::fmt_bytes(tr.data())));
+                    return out;
+                }
+            }
+            Err(e) => {
+                out.breaches.push(("C05", "sizes/send-refused".into(), format!("a request of {} bytes was refused", w.len()), "Ok".into(), format!("{e:?}")));
+                return out;
+            }
+        }
+        let mut now = base;
+        for _ in 0..24 {
+            match a.poll(now) {
+                StunAgentPollRet::WaitUntil(i) => {
+                    if i <= now {
+                        break;
+                    }
+                    out.transcript.push(h(&(i - base)));
+                    now = i;
+                }
+                StunAgentPollRet::SendData(tr) => {
+                    n_tx += 1;
+                    if tr.data() != &w[..] || tr.to != dest || tr.from != local_addr() {
+                        out.breaches.push(("C18", "sizes/retransmission-bytes".into(), format!("transmission #{n_tx} of a request of {} bytes is not the request as handed over", w.len()), crate::common::fmt_bytes(&w), crate::common::fmt_bytes(tr.data())));
+                        return out;
+                    }
+                }
+                StunAgentPollRet::TransactionTimedOut(_) => break,
+                StunAgentPollRet::TransactionCancelled(_) => break,
+            }
+        }
+        let want_tx = if sc.tcp { 1 } else { 7 };
+        if n_tx != want_tx {
+            out.breaches.push(("C06", "sizes/transmissions".into(), format!("a request of {} bytes was transmitted {n_tx} times under the default schedule", w.len()), want_tx.to_string(), n_tx.to_string()));
+            return out;
+        }
+    }
+    out
+}
+
+/// Responses to an authenticated request.  `kind` 0 short-term / 1 long-term credentials, `n` block of 50
+/// error codes (0..8; block 8 = success responses), `via` integrity of the response (0 none, 1 valid
+/// SHA-1, 2 valid SHA-256, 3 SHA-1 under another key, 4 valid SHA-1 with one bit flipped), `mix` bit 0
+/// the request was signed with SHA-256 instead of SHA-1.  Each is tried with every subset of {NONCE,
+/// REALM, ALTERNATE-SERVER, FINGERPRINT}.
+fn responses(sc: &Scenario) -> Outcome {
+    use crate::engine_in::prog::creds_alphabet;
+    let base = base_instant();
+    let t = if sc.tcp { TransportType::Tcp } else { TransportType::Udp };
+    let mut out = Outcome { breaches: vec![], transcript: vec![] };
+    let dest = saddr(0, 1);
+    let calpha = creds_alphabet();
+    let (mine, theirs, other) = if sc.kind == 0 { (&calpha[0], &calpha[7], &calpha[2]) } else { (&calpha[1], &calpha[6], &calpha[4]) };
+    let codes: Vec<u16> = if sc.n >= 8 { vec![0] } else { (300 + 50 * sc.n as u16..350 + 50 * sc.n as u16).collect() };
+    for code in codes {
+        for mask in 0..16u8 {
+            let idv = stid(1_500_000 + code as usize * 16 + mask as usize);
+            let mut a = StunAgent::builder(t, local_addr()).build();
+            a.set_local_credentials(crate::real::creds(mine));
+            a.set_remote_credentials(crate::real::creds(theirs));
+            let mut rq = Message::builder(MessageType::from_class_method(MessageClass::Request, BINDING), idv.into());
+            rq.add_message_integrity(&crate::real::creds(mine), if sc.mix & 1 == 1 { IntegrityAlgorithm::Sha256 } else { IntegrityAlgorithm::Sha1 }).unwrap();
+            if a.send(rq, dest, base).is_err() {
+                out.breaches.push(("C05", "responses/send-refused".into(), "an authenticated request was refused".into(), "Ok".into(), "Err".into()));
+                return out;
+            }
+            let mut m = wire::encode_header(if code == 0 { 2 } else { 3 }, BINDING, idv, 0);
+            if code != 0 {
+                let mut v = vec![0, 0, (code / 100) as u8, (code % 100) as u8];
+                v.extend_from_slice(b"reason");
+                wire::append_raw(&mut m, 0x0009, &v);
+            }
+            if mask & 1 != 0 {
+                wire::append_raw(&mut m, 0x0015, b"obMatJos2AAACf//499k954d6OL34oL9FSTvy64sA");
+            }
+            if mask & 2 != 0 {
+                wire::append_raw(&mut m, 0x0014, b"realm.example");
+            }
+            if mask & 4 != 0 {
+                wire::append_raw(&mut m, 0x8023, &[0, 1, 0x0D, 0x96, 192, 0, 2, 9]);
+            }
+            match sc.via {
+                1 => wire::append_mi(&mut m, &theirs.key()),
+                2 => wire::append_mi256(&mut m, &theirs.key(), 32),
+                3 => wire::append_mi(&mut m, &other.key()),
+                4 => {
+                    wire::append_mi(&mut m, &theirs.key());
+                    let l = m.len();
+                    m[l - 7] ^= 0x04;
+                }
+                _ => {}
+            }
+            if mask & 8 != 0 {
+                wire::append_fp(&mut m);
+            }
+            let msg = match Message::from_bytes(&m) {
+                Ok(x) => x,
+                Err(e) => panic!("harness: response of the responses family does not parse: {e:?}"),
+            };
+            let delivered = matches!(a.handle_stun(msg, dest), HandleStunReply::StunResponse(_));
+            let validated = a.is_validated_peer(dest);
+            let outstanding = a.request_transaction(idv.into()).is_some();
+            out.transcript.push(h(&(delivered, validated, outstanding)));
+            let want = matches!(sc.via, 1 | 2);
+            let what = format!("{} response{} with {}{}{}{}{} to a request authenticated under {} credentials", if code == 0 { "a success".to_string() } else { format!("a {code} error") }, "", ["no integrity", "a valid MESSAGE-INTEGRITY", "a valid MESSAGE-INTEGRITY-SHA256", "a MESSAGE-INTEGRITY computed with another key", "a corrupted MESSAGE-INTEGRITY"][sc.via as usize % 5], if mask & 1 != 0 { " + NONCE" } else { "" }, if mask & 2 != 0 { " + REALM" } else { "" }, if mask & 4 != 0 { " + ALTERNATE-SERVER" } else { "" }, if mask & 8 != 0 { " + FINGERPRINT" } else { "" }, if sc.kind == 0 { "short-term" } else { "long-term" });
+            // C15: the source is validated exactly when the response was delivered (whether or not it
+            // should have been delivered is C07's / C05's question, asked next)
+            if validated != delivered {
+                out.breaches.push(("C15", "responses/validated-vs-delivered".into(), format!("{what}: the source is validated exactly when the response is delivered"), format!("delivered {delivered}, validated {delivered}"), format!("delivered {delivered}, validated {validated}")));
+                return out;
+            }
+            if delivered != want {
+                out.breaches.push((if want { "C05" } else { "C07" }, if want { "responses/authentic-response-dropped".into() } else { "responses/unauthenticated-response-delivered".into() }, what, format!("delivered: {want}"), format!("delivered: {delivered}")));
+                return out;
+            }
+            if outstanding == want {
+                out.breaches.push(("C05", "responses/outstanding".into(), format!("{what}: the request stays outstanding exactly when the response is dropped"), format!("outstanding: {}", !want), format!("outstanding: {outstanding}")));
+                return out;
+            }
+        }
+    }
+    out
+}
+
 /// Phase experiment (C20, "instants passed to one call do not leak into another transaction's
 /// schedule"): request B is sent `delta + phi` after the first instant the agent ever saw, for sub-
 /// microsecond and sub-millisecond phases phi, with and without an earlier request A (and an earlier idle
@@ -560,6 +727,8 @@ pub fn run_scenario(sc: &Scenario) -> Outcome {
         "contents" => contents(sc),
         "phase" => phase(sc),
         "fractional" => fractional(sc),
+        "sizes" => sizes(sc),
+        "responses" => responses(sc),
         _ => transactions(sc),
     }) {
         Ok(o) => o,
@@ -833,10 +1002,33 @@ fn transactions(sc: &Scenario) -> Outcome {
     out
 }
 
+/// What the thread of a scenario finds around it (agent::ambient).
+#[derive(Clone, Debug)]
+enum Ambient {
+    Plain,
+    /// the process clock jumps this many seconds at every read
+    ClockStep(u64),
+    /// an environment variable reads as this value (`None`: unset)
+    Env(String, Option<&'static str>),
+}
+
 fn on_fresh_thread(sc: Scenario) -> Outcome {
+    on_fresh_thread_in(sc, Ambient::Plain)
+}
+
+fn on_fresh_thread_in(sc: Scenario, amb: Ambient) -> Outcome {
     std::thread::Builder::new()
         .stack_size(1 << 20)
-        .spawn(move || run_scenario(&sc))
+        .spawn(move || {
+            let _g = crate::ambient::scope();
+            crate::ambient::record(true);
+            match &amb {
+                Ambient::Plain => {}
+                Ambient::ClockStep(secs) => crate::ambient::clock_step(Duration::from_secs(*secs)),
+                Ambient::Env(name, value) => crate::ambient::env_override(name, *value),
+            }
+            run_scenario(&sc)
+        })
         .expect("spawn")
         .join()
         .unwrap_or(Outcome { breaches: vec![], transcript: vec![0xBAD] })
@@ -860,7 +1052,18 @@ pub fn judge(prop: &str, sc: &Scenario, acc: &mut Acc) {
         let mut noisy = sc.clone();
         noisy.noise = true;
         let o3 = on_fresh_thread(noisy);
-        for (name, other) in [("a second execution on another fresh thread", &o2), ("an execution alongside an unrelated agent", &o3)] {
+        let o4 = on_fresh_thread_in(sc.clone(), Ambient::ClockStep(7));
+        let o5 = on_fresh_thread_in(sc.clone(), Ambient::ClockStep(4_320_000));
+        let mut others: Vec<(String, Outcome)> = vec![("a second execution on another fresh thread".into(), o2), ("an execution alongside an unrelated agent".into(), o3), ("an execution with the process clock jumping 7 s at every read".into(), o4), ("an execution with the process clock jumping 50 days at every read".into(), o5)];
+        // every environment variable the library was seen to read so far, under every value of the alphabet
+        if sc.n <= 300 {
+            for name in crate::ambient::env_names() {
+                for value in crate::ambient::ENV_VALUES.iter().map(|v| Some(*v)).chain([None]) {
+                    others.push((format!("an execution with the environment variable {name} reading as {value:?}"), on_fresh_thread_in(sc.clone(), Ambient::Env(name.clone(), value))));
+                }
+            }
+        }
+        for (name, other) in others.iter().map(|(n, o)| (n.as_str(), o)) {
             if other.transcript != o.transcript {
                 let at = o.transcript.iter().zip(other.transcript.iter()).position(|(a, b)| a != b).unwrap_or(o.transcript.len().min(other.transcript.len()));
                 acc.violation(Violation::new("C20", "scale/replay-differs", format!("{name} of the same long history gives different replies"), "identical reply transcripts".to_string(), format!("first difference at reply #{at} of {}", o.transcript.len()), replay_value(sc)));
@@ -873,6 +1076,8 @@ pub fn judge(prop: &str, sc: &Scenario, acc: &mut Acc) {
         "contents" => "message contents: 256 attribute types served to time-out",
         "phase" => "phase experiment: sub-microsecond offsets between calls",
         "fractional" => "fractional configuration: durations that are not whole milliseconds",
+        "sizes" => "message sizes: 64 request sizes served to time-out",
+        "responses" => "responses to an authenticated request: 50 error codes x attribute sets",
         _ => "long history: many concurrent requests",
     });
 }
@@ -939,6 +1144,29 @@ pub fn scenarios(prop: &str, thorough: bool) -> Vec<Scenario> {
                         // every method (16 blocks of 256)
                         for block in 0..16usize {
                             v.push(Scenario { family: "contents".into(), tcp, kind: 255, n: block, via, mix: 0, noise: false });
+                        }
+                    }
+                }
+            }
+        }
+    }
+    if matches!(prop, "C18" | "C06") {
+        for tcp in [false, true] {
+            for via in [0u8, 1] {
+                for block in 0..35usize {
+                    v.push(Scenario { family: "sizes".into(), tcp, kind: 0, n: block, via, mix: 0, noise: false });
+                }
+            }
+            v.push(Scenario { family: "sizes".into(), tcp, kind: 1, n: 0, via: 0, mix: 0, noise: false });
+        }
+    }
+    if matches!(prop, "C15" | "C07" | "C05") {
+        for tcp in [false, true] {
+            for kind in [0u8, 1] {
+                for block in 0..=8usize {
+                    for via in 0..5u8 {
+                        for mix in [0u8, 1] {
+                            v.push(Scenario { family: "responses".into(), tcp, kind, n: block, via, mix, noise: false });
                         }
                     }
                 }
